@@ -8,7 +8,7 @@ def knobs(rnd):
 
 
 def run(tier):
-    progcheck.run(PROP, tier, knobs, 300, 8000,
+    progcheck.run(PROP, tier, knobs, 900, 12000,
                   rule='stratified random programs whose bodies use call/1..3 (atom or compound goal, inline or via a variable '
                        'bound earlier in the body, extra arguments), once/1, findall/3, = and \\= with goals that have 0-3 '
                        'solutions; any exception escaping a query is a violation; non-trivial = the reference yields >= 1 '
